@@ -293,8 +293,7 @@ R3LC2 = [
 MS_REPL = ["bn_mod", "bn_mod_legendre", "bn_assign_init", "bn_add_digit", "bn_sub_digit", "bn_r_shift", "bn_mod_exp", "bn_mod_mult_digit",
            "bn_mod_mult", "bn_mod_square", "bn_init", "bn_assign", "bn_calc_bits", "bn_xor", "bn_ctz", "bn_assign_2exp", "bn_div",
            "bn_mod_inv_bin", "bn_cmp"]
-# bn_mod_sqrt (contract in contracts/bn_mod.h, loop contracts in loopdefs.py): the job with its 19 callees replaced
-# runs out of memory (> 40 GB in propositional reduction, > 1024 objects) also with the light callee contracts: not registered
+# bn_mod_sqrt: with the FULL callee contracts the job runs out of memory (> 40 GB); see the round-4 jobs with contracts/bn_light.h below
 for key, full, repl, bitlen, extra in R3LC2:
     W, nd = 8, bitlen // 8
     job("r3.%s.loops.w%d.n%d" % (full, W, nd), "bn3.c",
@@ -317,7 +316,7 @@ job("r3.bn_mod_legendre.w8.n2", "bn3.c", cfg(8, True, bitlen=16, extra=["VF_FN_m
 # ------------------------------------------------------------------ bn_mod_sqrt (round 4): light callee contracts (contracts/bn_light.h)
 for var, extra, txt in (("stub", [], "frame (only bn->digits / bn->num), status set {0, -1, EINVAL, EOVERFLOW}, EINVAL for an even or zero modulus, well-formed result on success, termination of both Tonelli-Shanks loops"),
                         ("range", ["VF_MS_RANGE"], "the same plus: success implies result < m"),
-                        ("root", ["VF_MS_VALUE"], "the same plus: success implies result^2 == input (mod m)")):
+                        ):  # ("root", ["VF_MS_VALUE"], ...): success implies result^2 == input (mod m) - did not close, see not_covered
     job("r3.bn_mod_sqrt.%s.w8.n7" % var, "bn3.c",
         cfg(8, True, bitlen=56, extra=["VF_FN_mod_sqrt", "VF_BN_LIGHT_SET"] + extra + vb(56)),
         enforce=["bn_mod_sqrt"], replace=MS_REPL, functions=["bn_mod_sqrt"], route="bounded", backend="kissat",
@@ -365,6 +364,7 @@ EXPLANATION = (
  "real code are listed in known_findings.d/C01.json with patches in proposed_fixes/bignum-*.diff; the ledger is generated from "
  "the tree that contains those patches.")
 ASSUMPTIONS = [
+ "bn_mod_sqrt jobs (r3.bn_mod_sqrt.*): callees are replaced by the LIGHT contracts of contracts/bn_light.h, each with the requires/assigns of the enforced C01 contract of that callee and a subset (or direct logical consequence: equal values of well-formed numbers have equal digit counts; x % m < m; a non-zero number has bit length >= 1) of its ensures",
  "CBMC 6.11 C semantics for x86-64 LP64 little endian; contracts are proved at source level: the 'compiler and optimisation level' quantifier of C01 is addressed only through UB-freedom (bounds, pointer, pointer-overflow, shift, signed-overflow, div-by-zero checks are on in every job)",
  "pointers passed to bn_* functions are non-NULL valid objects (the NULL -> EINVAL branches of BN_POINTER_CHK_EINVAL are not exercised); two bn_t operands are the same object or do not overlap",
  "shift domain taken from the call sites: bn_l_shift bits < W*count, bn_r_shift bits < W*digits (bn_digits_l/r_shift bits < W*count); outside it the memmove length / loop bound underflows (DESIGN F2) - every in-tree call site was checked to establish it",
@@ -382,7 +382,7 @@ NOT_COVERED = [
  "rung 2 is W = 8 only and <= 4 digits (bn_mult <= 3 digits); the digit-array multiply functions are proved against the sum of per-digit products, the closed product form used by their callers rests on the distributivity identity listed in those jobs' assumptions",
  "rung 3 at larger configurations: bn_mod / bn_mod_mult / bn_mod_mult_digit / bn_mod_square / bn_mod_reduce at W = 8 x 4 digits and bn_mod_add at the shipped W = 64 x 22 digits (2880-bit spec vectors) did not finish in 1200 s and are not registered; bn_calc_naf with 16-bit scalars > 1800 s (8-bit scalars, windows 2..5, proved; bn_calc_jsf proved for all pairs of 16-bit scalars)",
  "bn_exp_digit, bn_digit_egcd, bn_mod_small, bn_mod_legendre: no contract",
- "rung 3 loop functions, value clauses: proved only for bn_sqrt1 (floor square root). bn_mod_sqrt: contract (status set, EINVAL for an even modulus, success implies result^2 == input mod m) and loop contracts are written, but the modular job (19 callees replaced, 45 call sites) exhausts 40 GB in cbmc's propositional reduction - NOT proved, C03/C09 keep their assumed stub for it. NOT proved either: bn_mod_inv_bin 'result != 0 and result * bn == 1 (mod m)' (only frame / status / domain / range / termination), bn_gcd / bn_gcd_bin have NO proved contract at all (contracts and loop contracts written; cbmc's symbolic execution of the pointer-swapping Euclid loops with replaced callees did not finish in 35 min), bn_mod_exp* / bn_exp_digit 'equals bn^e (mod m)' beyond e in {0,1,2}. All loop-function proofs are at W = 8 with BN_MAX_DIGITS = 2 (bn_mod_inv_bin, bn_mod_sqrt: 7) - the loop contracts make the NUMBER OF ITERATIONS unbounded, not the capacity; full unwinding instead of loop contracts exhausts memory in cbmc's SSA conversion",
+ "rung 3 loop functions, value clauses: proved only for bn_sqrt1 (floor square root). bn_mod_sqrt (round 4): ENFORCED by r3.bn_mod_sqrt.stub.w8.n7 (frame: only bn->digits / bn->num; status in {0, -1, EINVAL, EOVERFLOW}; EINVAL for an even or zero modulus; well-formed result on success; termination of both Tonelli-Shanks loops) and r3.bn_mod_sqrt.range.w8.n7 (additionally: result < m on success), with the 19 callees replaced by the light contracts of contracts/bn_light.h - these cover every clause contracts/ec_bn_stubs.h assumes for bn_mod_sqrt. The root property 'success implies result^2 == input (mod m)' (-DVF_MS_VALUE: value clauses of bn_mod / bn_mod_square / bn_assign_init / bn_cmp kept) is NOT proved: 15 GB, killed by the system OOM killer after 13 min in the first attempt, no result after 23 min on kissat in the second (two independent `%` instances have to be identified, i.e. uniqueness of division); on failure nothing is guaranteed beyond the frame (bn may hold an intermediate value). NOT proved either: bn_mod_inv_bin 'result != 0 and result * bn == 1 (mod m)' (only frame / status / domain / range / termination), bn_gcd / bn_gcd_bin have NO proved contract at all (contracts and loop contracts written; cbmc's symbolic execution of the pointer-swapping Euclid loops with replaced callees did not finish in 35 min), bn_mod_exp* / bn_exp_digit 'equals bn^e (mod m)' beyond e in {0,1,2}. All loop-function proofs are at W = 8 with BN_MAX_DIGITS = 2 (bn_mod_inv_bin, bn_mod_sqrt: 7) - the loop contracts make the NUMBER OF ITERATIONS unbounded, not the capacity; full unwinding instead of loop contracts exhausts memory in cbmc's SSA conversion",
  "import/export digit-array level (bn_digits_import_*/export_*) unbounded safety jobs: not registered (the bn_t-level jobs execute those bodies for buffers <= 8..18 bytes); export hex at W=64 runs out of memory (12 GB) in symbolic execution",
  "outside the claim as stated by the property: Barrett reduction, bn_egcd, bn_mod_inv3, bn_sqrt4 (and the non-selected bn_sqrt2/3/5, bn_mod_inv1/2, bn_mod_inv_mont, bn_mod_div_mont)",
 ]
